@@ -95,8 +95,8 @@ func Gen(t *rapid.T, o GenOpts) Prog {
 				T:        rapid.SampledFrom([]string{"proposal", "proposal", "prepare", "commit", "rc", "rc"}).Draw(t, "ft"),
 				RoundRel: rapid.SampledFrom([]int{0, 0, 0, 0, 1, 1, 2, -1}).Draw(t, "frel"),
 				Value:    rapid.SampledFrom([]string{"auto", "A", "B", "C", "B", "X"}).Draw(t, "fval"),
-				Just:     rapid.SampledFrom([]string{"auto", "auto", "auto", "none", "short"}).Draw(t, "fjust"),
-				Prepared: rapid.SampledFrom([]string{"none", "none", "pool", "pool", "fake"}).Draw(t, "fprep"),
+				Just:     rapid.SampledFrom([]string{"auto", "auto", "auto", "none", "short", "replay"}).Draw(t, "fjust"),
+				Prepared: rapid.SampledFrom([]string{"none", "none", "pool", "pool", "fake", "replay"}).Draw(t, "fprep"),
 				PRound:   rapid.IntRange(1, 3).Draw(t, "fpround")}
 			if rapid.IntRange(0, 9).Draw(t, "fas_on") == 0 {
 				fg.As = rapid.IntRange(1, n).Draw(t, "fas")
